@@ -23,6 +23,10 @@ def emit(A, nlist, strlit, strlist):
     A('Definition cookie_LegalChars : list N := %s.' % strlit(http_cookies._LegalChars))
     A('Definition cookie_reserved : list (list N) := %s.' % strlist(sorted(http_cookies.Morsel._reserved)))
     A('Definition cookie_flags : list (list N) := %s.' % strlist(sorted(http_cookies.Morsel._flags)))
+    A("(* http.cookies._quote: characters that need no escape inside quotes, and the translation table *)")
+    A('Definition cookie_UnescapedChars : list N := %s.' % strlit(http_cookies._UnescapedChars))
+    A('Definition cookie_Translator : list (N * list N) := [%s].' % '; '.join(
+        '(%d, %s)' % (k, strlit(v)) for k, v in sorted(http_cookies._Translator.items())))
     A('(* falcon/response.py *)')
     A('Definition samesite_values : list (list N) := %s.' % strlist(sorted(response._RESERVED_SAMESITE_VALUES)))
     A('Definition crossorigin_values : list (list N) := %s.' % strlist(sorted(response._RESERVED_CROSSORIGIN_VALUES)))
